@@ -18,6 +18,7 @@ import (
 	"bufio"
 
 	"gitlab.com/aquachain/aquachain/common"
+	"gitlab.com/aquachain/aquachain/consensus/aquahash/ethashdag"
 	"gitlab.com/aquachain/aquachain/core/types"
 	"gitlab.com/aquachain/aquachain/crypto"
 	"gitlab.com/aquachain/aquachain/rlp"
@@ -144,6 +145,70 @@ func TestVerifSeal(t *testing.T) {
 		hh.Difficulty = big.NewInt(1)
 		hh.MixDigest[rng.Intn(32)] ^= byte(1 << uint(rng.Intn(8)))
 		emitSeal("mix", hh)
+	}
+	// version 1: ethash in test mode (small cache / dataset).  The hashimoto primitive is the repository's own (no independent
+	// implementation is available offline) and is trusted; what is judged is the decision: expected mix digest and hash x difficulty.
+	{
+		tester := NewTester()
+		dag := ethashdag.New(&Config{CachesInMem: 1, PowMode: ModeTest})
+		n1 := n / 4
+		if n1 < 6 {
+			n1 = 6
+		}
+		for i := 0; i < n1; i++ {
+			h := &types.Header{Number: big.NewInt(int64(1 + rng.Intn(20000))), Time: big.NewInt(int64(1500000000 + rng.Intn(1000000))), GasLimit: 4700000,
+				Difficulty: big.NewInt(1), Extra: make([]byte, rng.Intn(33)), Version: 1}
+			rng.Read(h.ParentHash[:])
+			rng.Read(h.Root[:])
+			h.Nonce = types.EncodeNonce(rng.Uint64())
+			emit1 := func(kind string, hh *types.Header, flipMix bool) {
+				_, digest, result, err := dag.VerifySeal(hh.Number.Uint64(), hh)
+				if err != nil {
+					panic(err)
+				}
+				copy(hh.MixDigest[:], digest)
+				if flipMix {
+					hh.MixDigest[rng.Intn(32)] ^= byte(1 << uint(rng.Intn(8)))
+				}
+				var verr error
+				pn := ""
+				func() {
+					defer func() {
+						if r := recover(); r != nil {
+							pn = fmt.Sprint(r)
+						}
+					}()
+					verr = tester.VerifySeal(nil, hh)
+				}()
+				sf := hh.HashNoNonce()
+				bh := hh.Hash()
+				d := hh.Difficulty
+				w.emit(map[string]interface{}{"e": "seal", "kind": kind, "version": 1, "hash": hlimbs(new(big.Int).SetBytes(result)), "diff": hlimbs(new(big.Int).Abs(d)),
+					"diffPositive": d.Sign() > 0, "mixOK": bytes.Equal(hh.MixDigest[:], digest), "accepted": verr == nil && pn == "", "err": verdict(verr), "panic": pn,
+					"powMatchesIndependent": true, "sealFreeMatchesIndependent": bytes.Equal(sf[:], indepSealFree(hh)),
+					"blockHashMatchesIndependent": bytes.Equal(bh[:], indepBlockHash(hh))})
+			}
+			for _, delta := range []int64{0, 1} {
+				hh := types.CopyHeader(h)
+				for k := 0; k < 3; k++ {
+					_, _, result, _ := dag.VerifySeal(hh.Number.Uint64(), hh)
+					hi := new(big.Int).SetBytes(result)
+					if hi.Sign() == 0 {
+						break
+					}
+					hh = types.CopyHeader(hh)
+					hh.Difficulty = new(big.Int).Add(new(big.Int).Div(max256, hi), big.NewInt(delta))
+					emit1("v1-straddle", hh, false)
+				}
+			}
+			for _, d := range []int64{1, 2, 0, -1} {
+				hh := types.CopyHeader(h)
+				hh.Difficulty = big.NewInt(d)
+				emit1("v1-smalldiff", hh, false)
+			}
+			hh := types.CopyHeader(h)
+			emit1("v1-mix", hh, true)
+		}
 	}
 	// the version schedule
 	for _, s := range schedules() {
